@@ -161,6 +161,8 @@ class FibRun:
                     types_ = [e[0] for e in els]
                     if sorted(types_) != sorted(set(types_)) or set(types_) - {0x62, 0x50}:
                         env = 'lp-unexpected-headers'
+                    elif types_ and types_[-1] != 0x50:
+                        env = 'lp-fragment-not-last'
                     tok = dict(els).get(0x62)
                     inner = dict(els).get(0x50, b'')
                 # which reply is it?
@@ -224,10 +226,28 @@ class FibRun:
             # components below every attached prefix do not change the route; unusual ones must not disturb delivery
             sfx = [[], [enc.Component.from_bytes(b'\x01' + bytes(8), enc.Component.TYPE_SEGMENT)], [enc.Component.from_bytes(b'')],
                    [enc.Component.from_bytes(b'x', 65535)]][i % 4]
-            w, fullname = enc.make_interest(enc.Name.from_str(nm(it['name'])) + sfx, enc.InterestParam(lifetime=life_ms, nonce=NONCE0 + i),
-                                            app_param, signer=signer, need_final_name=True)
+            # fields that do not matter for dispatch, varied with the Interest number
+            ip = enc.InterestParam(lifetime=life_ms, nonce=NONCE0 + i, can_be_prefix=(i % 3 == 0), must_be_fresh=(i % 5 == 0),
+                                   hop_limit=(None, 0, 5, 255)[i % 4],
+                                   forwarding_hint=([enc.Name.from_str('/hint/%d' % i)] if i % 6 == 2 else []))
+            if it['signed'] and not it['params']:
+                # signature elements but no ApplicationParameters (and therefore no digest component): built by hand, the
+                # library's encoder always adds parameters
+                from harness import strict_tlv as st
+                comps = [(0x08, c.encode()) for c in it['name']] + [bytes(x) for x in sfx]
+                els = [(0x07, comps), (0x0a, (NONCE0 + i).to_bytes(4, 'big'))]
+                if life_ms is not None:
+                    els.append((0x0c, life_ms))
+                els += [(0x2c, [(0x1b, 0)]), (0x2e, bytes(32))]
+                w = st.write_tlv([(0x05, els)])
+                fullname = enc.parse_interest(w)[0]
+            else:
+                w, fullname = enc.make_interest(enc.Name.from_str(nm(it['name'])) + sfx, ip, app_param, signer=signer,
+                                                need_final_name=True)
             w = bytearray(w)
-            if (it['params'] or it['signed']) and not it['digOk']:
+            if it['signed'] and not it['params']:
+                pass
+            elif (it['params'] or it['signed']) and not it['digOk']:
                 dig = bytes(enc.Component.get_value(fullname[-1]))
                 k = bytes(w).find(dig)
                 assert k >= 0 and len(dig) == 32
@@ -241,7 +261,7 @@ class FibRun:
             elif it['params'] or it['signed']:
                 self.good_digests.append(bytes(enc.Component.get_value(fullname[-1])))
             w = bytes(w)
-            self.intinfo[i] = {'it': it, 'fullname': fullname, 'wire': w}
+            self.intinfo[i] = {'it': it, 'fullname': fullname, 'wire': w, 'dl': self.tick() + it['life']}
             tok = TOKENS[it['tok']]
             if ev['env'] != 'bare':
                 w = lp_wrap(w, token=tok, extra=(ev['env'] == 'lph'), odd=(ev['env'] == 'lpo'))
@@ -293,6 +313,11 @@ class FibRun:
         elif a == 'Tick':
             loop.settle(timers_now=True)
             loop.set_time(self.t0 + (self.tick() + 1) * TICK_MS / 1000.0)
+            loop.settle(timers_now=True)
+        elif a == 'Jump':
+            target = self.t0 + ev['to'] * TICK_MS / 1000.0
+            loop.advance_to(target - 0.0005)
+            loop.set_time(target)
             loop.settle(timers_now=True)
         elif a == 'Shutdown':
             self.app.shutdown()
@@ -348,7 +373,7 @@ class DispatcherRun:
             ret = self.d.dispatch(enc.Name.from_str(nm(ev['it']['name'])), enc.InterestParam(nonce=NONCE0 + self.nint), None)
             if bool(ret) != (len(self.handled) > before):
                 self.bg.append('dispatch-return-value-untruthful')
-        elif a in ('Tick', 'RecvJunk', 'Shutdown', 'Connect'):
+        elif a in ('Tick', 'Jump', 'RecvJunk', 'Shutdown', 'Connect'):
             pass
         else:
             raise ValueError(a)
